@@ -887,8 +887,13 @@ impl IpcDataGenerator {
         let schema = batch.schema();
         let mut encoded_dictionaries = Vec::with_capacity(schema.flattened_fields().len());
         let mut dict_id = dictionary_tracker.dict_ids.clone().into_iter();
+        // If a later column fails nothing of this batch is written: the tracker must
+        // not remember dictionaries of earlier columns that were never emitted
+        let written = dictionary_tracker
+            .error_on_replacement
+            .then(|| dictionary_tracker.written.clone());
         for (i, field) in schema.fields().iter().enumerate() {
-            self.encode_dictionaries(
+            let result = self.encode_dictionaries(
                 field,
                 batch.column(i),
                 &mut encoded_dictionaries,
@@ -896,7 +901,13 @@ impl IpcDataGenerator {
                 write_options,
                 &mut dict_id,
                 ipc_write_context,
-            )?;
+            );
+            if let Err(e) = result {
+                if let Some(written) = written {
+                    dictionary_tracker.written = written;
+                }
+                return Err(e);
+            }
         }
         Ok(encoded_dictionaries)
     }
